@@ -125,3 +125,35 @@ func VerifC36dao() {
 		v.Assert(gotTo.Cmp(amt) == 0 && supply.Cmp(daoBal) == 0, "transfer-credits-recipient-exactly")
 	}
 }
+
+// VerifC36upgrade: a protocol upgrade (HandleUpgrade, before and after the codec upgrade height)
+// is accepted only from the owner of gov/upgrade; anybody else's attempt leaves the stored upgrade
+// and the process-wide upgrade globals untouched.
+func VerifC36upgrade() {
+	w := c36new()
+	upKey := types.NewACLKey(types.ModuleName, string(types.UpgradeKey))
+	owner := c36people[v.Choice(3)]
+	w.acl.SetOwner(upKey, owner)
+	if v.Native() {
+		w.k.SetParams(w.ctx, types.Params{ACL: w.acl, DAOOwner: w.dao, Upgrade: types.Upgrade{}})
+	} else {
+		v.Param(string(types.ACLKey), w.acl)
+	}
+	// the block height lies on either side of the codec upgrade height
+	if v.Choice(2) == 1 {
+		codec.UpgradeHeight = w.ctx.Height + 1 // not yet upgraded
+	} else {
+		codec.UpgradeHeight = 1
+	}
+	signer := append(c36people, sdk.Address([]byte("stranger-address-xxx")))[v.Choice(4)]
+	before := w.raw(upKey)
+	gh, gf := codec.UpgradeHeight, len(codec.UpgradeFeatureMap)
+	up := types.Upgrade{Height: w.ctx.Height + 100, Version: "1.0.0"}
+	res := w.k.HandleUpgrade(w.ctx, upKey, up, signer)
+	v.Assert(res.IsOK() == signer.Equals(owner), "upgrade-accepted-iff-signer-owns-gov-upgrade")
+	if !signer.Equals(owner) {
+		v.Assert(bytes.Equal(w.raw(upKey), before) && codec.UpgradeHeight == gh && len(codec.UpgradeFeatureMap) == gf, "refused-upgrade-changes-nothing")
+	} else {
+		v.Assert(!bytes.Equal(w.raw(upKey), before), "owner-upgrade-is-stored")
+	}
+}
